@@ -70,11 +70,7 @@ def norm_shape(a):
     return tuple(a) if isinstance(a, list) and len(a) == 2 and a[0] == "l" else a
 
 
-def build(w):
-    """make the request on the implementation -> the gate object (raises what the constructor raises)"""
-    from qutip_qip.operations import gateclass, Gate
-    from qutip_qip.circuit import QubitCircuit
-    key, path = w["key"], w["path"]
+def kwargs_of(w):
     kw = {}
     for k, name in (("targets", "targets"), ("controls", "controls"), ("cv", "control_value")):
         if w[k] != ABSENT:
@@ -82,16 +78,29 @@ def build(w):
     arg = norm_shape(w["arg"])
     if arg != ABSENT:
         kw["arg_value"] = arg_values(arg)
+    return kw
+
+
+def build(w, qc=None):
+    """make the request on the implementation -> the gate object (raises what the constructor raises); path "circuit" adds
+    the gate by name to `qc` (a fresh circuit if None), path "class" builds the object (and adds it to `qc` if given)"""
+    from qutip_qip.operations import gateclass, Gate
+    from qutip_qip.circuit import QubitCircuit
+    key, path = w["key"], w["path"]
+    kw = kwargs_of(w)
     if path == "circuit":
-        name = doc_name(key)
-        qc = QubitCircuit(6)
-        qc.add_gate(name, **kw)
-        return qc.gates[0]
+        qc = QubitCircuit(6) if qc is None else qc
+        qc.add_gate(doc_name(key), **kw)
+        return qc.gates[-1]
     if key.startswith("ControlledGate:"):
-        return gateclass.ControlledGate(target_gate=getattr(gateclass, key.split(":", 1)[1]), **kw)
-    if key.startswith("Gate:"):
-        return Gate(key.split(":", 1)[1], **kw)
-    return gateclass.GATE_CLASS_MAP[key](**kw)
+        g = gateclass.ControlledGate(target_gate=getattr(gateclass, key.split(":", 1)[1]), **kw)
+    elif key.startswith("Gate:"):
+        g = Gate(key.split(":", 1)[1], **kw)
+    else:
+        g = gateclass.GATE_CLASS_MAP[key](**kw)
+    if qc is not None:
+        qc.add_gate(g)
+    return g
 
 
 def classify_ctor_exc(e, controlled):
@@ -381,3 +390,112 @@ def correspondence(ctx, res, drv, entries, class_map):
                      "absent arg_value, plus 8 shapes of arg_value on the canonical placement and duplicate / negative labels "
                      "(complete over this grid)")
     return len(reqs)
+
+
+# ------------------------------------------------------------------------------------------------------------------
+# circuits holding SEVERAL gate objects: the matrix a circuit reports for a gate is that gate's own matrix
+
+def _gate_on(key, path, nq, cv=ABSENT, m=None):
+    """a well-formed request for `key` on the first qubits of a register (controls first)"""
+    name = doc_name(key)
+    if key.startswith("ControlledGate:"):
+        tn = key.split(":", 1)[1]
+        return {"key": key, "path": path, "targets": [m], "controls": list(range(m)), "cv": cv,
+                "arg": doc_arg_shape("SNOT" if tn == "H" else tn)}
+    if name in CONTROLLED:
+        mc = CONTROLLED[name][0]
+        return {"key": key, "path": path, "targets": list(range(mc, nq)), "controls": list(range(mc)), "cv": cv,
+                "arg": doc_arg_shape(name)}
+    return {"key": key, "path": path, "targets": list(range(nq)), "controls": ABSENT, "cv": cv, "arg": doc_arg_shape(name)}
+
+
+def multi_requests(rng, thorough):
+    """circuits of several gates on the same qubits: all ordered pairs of keys of GATE_CLASS_MAP with the same number of
+    qubits (each gate as an object and by name), all ordered pairs of ControlledGate objects over the single-qubit target
+    classes for 1..3 controls and two control values, and seeded random longer sequences"""
+    from qutip_qip.operations import gateclass
+    from props.c09 import SHAPES
+    groups = {}
+    for k in gateclass.GATE_CLASS_MAP:
+        groups.setdefault(sum(SHAPES[k]), []).append(k)
+    for nq, keys in sorted(groups.items()):
+        for a in keys:
+            for b in keys:
+                if a == b:
+                    continue
+                for pa, pb in (("class", "class"), ("class", "circuit"), ("circuit", "class")):
+                    yield {"kind": "circ", "n": nq, "gates": [_gate_on(a, pa, nq), _gate_on(b, pb, nq)]}
+    singles = [t for t in SINGLE_TARGETS if hasattr(gateclass, t)]
+    for m in (1, 2, 3):
+        for v in (2 ** m - 1, 0):
+            for a in singles:
+                for b in singles:
+                    if a != b:
+                        yield {"kind": "circ", "n": m + 1, "gates": [_gate_on("ControlledGate:" + a, "class", m + 1, v, m),
+                                                                     _gate_on("ControlledGate:" + b, "class", m + 1, v, m)]}
+    # the one-control classes next to ControlledGate objects with one control, and longer sequences
+    two = [k for k in groups.get(2, [])]
+    pool = [(k, p) for k in two for p in ("class", "circuit")] + [("ControlledGate:" + t, "class") for t in singles]
+    for _ in range(150 if not thorough else 1500):
+        gs = []
+        for k, p in [rng.choice(pool) for _ in range(rng.randint(3, 7))]:
+            gs.append(_gate_on(k, p, 2, 1, 1) if k.startswith("ControlledGate:") else _gate_on(k, p, 2))
+        yield {"kind": "circ", "n": 2, "gates": gs}
+
+
+def run_multi(w):
+    """-> (list of matrices the circuit reports through propagators(expand=False), compute_unitary(), gate objects)"""
+    from qutip_qip.circuit import QubitCircuit
+    qc = QubitCircuit(w["n"])
+    for g in w["gates"]:
+        build(g, qc)
+    props = [p.full() for p in qc.propagators(expand=False)]
+    return props, qc.compute_unitary().full(), list(qc.gates)
+
+
+def oracle_multi(w):
+    """the property for a circuit of several gates: every propagator is the documented matrix of ITS gate, and the
+    circuit unitary is their product (all gates act on the qubits 0..n-1 in this order, so compact = expanded)"""
+    try:
+        props, U, gates = run_multi(w)
+    except Exception as e:
+        return True, "a circuit of individually valid gates raises %s: %s" % (type(e).__name__, str(e)[:120])
+    names = [g["key"] + ("" if g["path"] == "class" else "(by name)") for g in w["gates"]]
+    total = np.eye(2 ** w["n"], dtype=complex)
+    for i, (g, P) in enumerate(zip(w["gates"], props)):
+        exp, what = expected_matrix(g, gates[i])
+        if exp is None:
+            return True, "gate %d (%s): %s" % (i, names[i], what)
+        if P.shape != exp.shape or np.abs(P - exp).max() > 1e-9:
+            return True, ("circuit [%s]: propagators(expand=False)[%d] is not the documented matrix of %s"
+                          % (", ".join(names), i, what))
+        total = exp @ total
+    if U.shape != total.shape or np.abs(U - total).max() > 1e-9:
+        return True, "circuit [%s]: compute_unitary() is not the product of the documented matrices" % ", ".join(names)
+    return False, "every propagator is the documented matrix of its gate"
+
+
+def correspondence_multi(ctx, res):
+    """the regenerated rule `_get_gate_unitary(gate) = gate.get_compact_qobj()` (Gen.G.circuitGateUnitary) against the
+    behaviour: the matrix reported through the circuit equals the matrix of a FRESH object of the same request"""
+    n = 0
+    for w in multi_requests(ctx.rng, ctx.thorough):
+        n += 1
+        inp = {"n": w["n"], "gates": [{k: v for k, v in g.items()} for g in w["gates"]]}
+        res.case(inp, nontrivial=True, tags=["circuit-of-several-gates", "len=%d" % len(w["gates"])])
+        try:
+            props, U, _ = run_multi(w)
+            own = [build(dict(g, path="class") if not g["key"].startswith("Gate:") else g).get_compact_qobj().full()
+                   for g in w["gates"]]
+            bad = [i for i, (P, O) in enumerate(zip(props, own)) if P.shape != O.shape or np.abs(P - O).max() > 1e-13]
+            detail = "propagator(s) %s differ from the gate's own get_compact_qobj()" % bad if bad else ""
+        except Exception as e:
+            bad, detail = [0], "raises %s: %s" % (type(e).__name__, str(e)[:100])
+        if bad:
+            res.disagree(inp, "gate.get_compact_qobj() of each gate", detail,
+                         "circuit path for circuits of several gates (rule _get_gate_unitary = own matrix)", dict(w))
+    res.notes.append("circuits of several gates: all ordered pairs of GATE_CLASS_MAP keys with equal qubit count (object/object, "
+                     "object/by-name, by-name/object), all ordered pairs of ControlledGate objects over the 12 single-qubit target "
+                     "classes x 1..3 controls x 2 control values (complete), seeded random sequences of 3..7 two-qubit gates; "
+                     "matrices read through propagators(expand=False) and compute_unitary")
+    return n
